@@ -23,7 +23,7 @@ STUB = ["kernel: listeners, accept, connect, poll, descriptors (sim/net.py)", "t
         "the forking server (modelled: the child is the same _accept_method call re-entered on a copy of the server with dup-ed descriptors)"]
 ASSUMPTIONS = ["kernel fidelity for accept/shutdown/close/poll masks", "the fork model is faithful only because os.fork() is the first statement of "
                "ForkingServer._accept_method"]
-PROBES = ["c17:closed-with-clients", "c17:abrupt-reset", "c17:slow-call-in-flight", "c17:second-close", "c17:oneshot", "c17:unix-socket"]
+PROBES = ["c17:knock", "c17:closed-with-clients", "c17:abrupt-reset", "c17:slow-call-in-flight", "c17:second-close", "c17:oneshot", "c17:unix-socket"]
 CHUNK = 16
 
 
@@ -158,11 +158,24 @@ def run_one(choices, params):
                 clients[i] = {"conn": conn, "inst": inst, "refs": [], "state": "connected"}
                 steps.append("connect%d" % i)
                 continue
-            op = w.pick(("call", "call", "ref", "slow", "close", "reset", "settle"))
+            op = w.pick(("call", "call", "ref", "slow", "close", "reset", "settle", "knock"))
             steps.append("%s%d" % (op, i))
             conn = cl["conn"]
             try:
-                if op == "call":
+                if op == "knock":
+                    # somebody connects and resets (or just closes) at once, before the server has looked at the socket
+                    if not server_closed[0] and kind != "oneshot":
+                        so = net.SockObj() if not unix else net.SockObj(family=1)
+                        so.settimeout(2)
+                        try:
+                            so.connect((SV.SRV_HOST, 18861) if not unix else path)
+                            if w.draw(2):
+                                k.kill_connection(so._d, "rst", "knock")
+                            so.close()
+                            sim.count("c17:knock")
+                        except OSError:
+                            pass
+                elif op == "call":
                     if conn.root.add(i, 1) != i + 1:
                         raise core.Violation("good-client-wrong-answer", "client %d add" % i)
                 elif op == "ref":
